@@ -292,7 +292,11 @@ func (e *Engine) runPath(s *Solver, fn *ssa.Function, prefix []int, wantWitness 
 			panic(r)
 		}
 	}()
-	w.spawn(FuncV{fn: fn}, nil, "harness", nil)
+	ht := w.spawn(FuncV{fn: fn}, nil, "harness", nil)
+	if init := e.pkg.Func("init"); init != nil && len(init.Blocks) > 0 {
+		// package-level variables of package leader (library sentinels, harness tables): run its init first
+		w.pushCall(ht, FuncV{fn: init}, nil, nil)
+	}
 	w.run()
 	if wantWitness != nil && !w.infeas && !w.truncated && len(w.viol) == 0 && wantWitness(w) {
 		func() {
